@@ -45,7 +45,9 @@ MANIFEST = {
             'five-component measure decreases with every non-spurious transition of the calls in progress, so every such '
             'execution is finite and ends with every started call returned. Wait predicates and notify conditions are '
             're-extracted from threadediter.h on every run; the model is replayed step for step against the real code under a '
-            'controlled scheduler; independent trace oracles.',
+            'controlled scheduler; independent trace oracles. Life cycle: after a completed Destroy, Init (its assignments read from '
+            'the source) puts the object exactly into the initial state, so a second life of the object is an execution of the same '
+            'system (C07_reinit_is_init, C07_second_life); second-life cases on real threads with an oracle.',
     'design_ref': 'DESIGN.md section 7 C07, sections 2 (Concurrency) and 3.3',
     'note': 'Trusted: Lean kernel, translator, vsched.h semantics, correspondence on explored schedules only, control flow '
             'hand-modelled, sequential consistency. Liveness = deadlock freedom in every reachable state + well-foundedness of the '
